@@ -240,6 +240,17 @@ Section Meta.
     | _ => None
     end.
 
+  (* what Manager._dispatcher / _eventDone need from a received event in order not to raise outside the
+     dispatcher's try: the channels key the handler cache (hashable), and a truthy [cause] makes
+     _eventDone execute [event.effects -= 1] *)
+  Definition dispatch_safe (e : event) : bool :=
+    forallb hashable (echannels e)
+    && match get k_cause (eattrs e) with
+       | None => true
+       | Some c => negb (truthy c)
+                   || match get k_effects (eattrs e) with Some (JInt _) => true | _ => false end
+       end.
+
   (* meta of dump_event / dump_value: attributes not in META_EXCLUDE (dump_value: and not __x) *)
   Definition dump_meta (e : event) : list (list N * json) :=           (* dump_value *)
     filter (fun p => allowed (fst p)) (eattrs e).
@@ -326,18 +337,22 @@ Section Meta.
   Definition no_reply (id : json) : bool :=     (* getattr(e, 'node_call_id', False) is not False *)
     match id with JBool false => true | _ => false end.
 
-  Definition b_packet (j : json) : list event * list N * bool * bool (* log+, out, abort, bad *) :=
-    if is_miss j then ([], [], false, true) else
+  (* -> (dispatched events, bytes written at once, bytes written after the dispatch, abort, bad).
+     A rejection is answered from inside add_buffer; the result of a dispatched event is written two
+     queue passes later (event -> <name>_success on node_result -> write), i.e. after every answer
+     produced by the same read. *)
+  Definition b_packet (j : json) : list event * list N * list N * bool * bool :=
+    if is_miss j then ([], [], [], false, true) else
     match is_value j with
     | Some o =>
         match load_value o with
-        | LvAbort => ([], [], true, false)
-        | LvOk _ id _ _ => ([], [], negb (hashable id), false)   (* __events.get(id): TypeError *)
-        | LvDrop => ([], [], false, false)
+        | LvAbort => ([], [], [], true, false)
+        | LvOk _ id _ _ => ([], [], [], negb (hashable id), false)   (* __events.get(id): TypeError *)
+        | LvDrop => ([], [], [], false, false)
         end
     | None =>
         match load_event j with
-        | None => ([], [], false, false)
+        | None => ([], [], [], false, false)
         | Some (e, id) =>
             if fw_recv e then
               (* event.success = True; fire(event, *event.channels) *)
@@ -346,35 +361,36 @@ Section Meta.
                            echannels := match echannels e with [] => [b_chan] | l => l end;
                            eattrs := eattrs e |} in
               match handler e' with
-              | Some None => ([e'], [], false, false)   (* handler raised: no success event, no result *)
+              | Some None => ([e'], [], [], false, false)   (* handler raised: no success event, no result *)
               | h => let log := match h with None => [] | Some _ => [e'] end in
                      let r := match h with Some (Some r) => r | _ => JNull end in
-                     if no_reply id then (log, [], false, false) else
+                     if no_reply id then (log, [], [], false, false) else
                      match packet (value_data id (JBool false) r e) with
-                     | Some b => (log, b, false, false)
-                     | None => (log, [], false, true)
+                     | Some b => (log, [], b, false, false)
+                     | None => (log, [], [], false, true)
                      end
               end
             else match packet (value_data id (JBool false) JNull e) with
-                 | Some b => ([], b, false, false)
-                 | None => ([], [], false, true)
+                 | Some b => ([], b, [], false, false)
+                 | None => ([], [], [], false, true)
                  end
         end
     end.
 
-  Fixpoint b_packets (js : list json) : list event * list N * bool * bool :=
+  Fixpoint b_packets (js : list json) : list event * list N * list N * bool * bool :=
     match js with
-    | [] => ([], [], false, false)
-    | j :: r => let '(l, o, ab, bd) := b_packet j in
-                if ab then (l, o, true, bd)
-                else let '(l', o', ab', bd') := b_packets r in (l ++ l', o ++ o', ab', bd || bd')
+    | [] => ([], [], [], false, false)
+    | j :: r => let '(l, o, ol, ab, bd) := b_packet j in
+                if ab then (l, o, ol, true, bd)
+                else let '(l', o', ol', ab', bd') := b_packets r in
+                     (l ++ l', o ++ o', ol ++ ol', ab', bd || bd')
     end.
 
   Definition b_read (s : st) (data : list N) : st :=
     let '(js, buf) := feed json parse D (b_buf s) data in
-    let '(l, o, ab, bd) := b_packets js in
+    let '(l, o, ol, ab, bd) := b_packets js in
     {| a_nid := a_nid s; a_pend := a_pend s; a_calls := a_calls s; a_buf := a_buf s;
-       b_buf := if ab then [] else buf; b_log := b_log s ++ l; wab := wab s; wba := wba s ++ o;
+       b_buf := if ab then [] else buf; b_log := b_log s ++ l; wab := wab s; wba := wba s ++ o ++ ol;
        bad := bad s || bd |}.
 
   (* --- A: Value.setValue on ev.value, ev.errors, ev.remote_finish, setattr of the meta *)
